@@ -213,6 +213,17 @@ Theorem C15_sle_update_frame : forall si idx m l s x l' s',
 Proof. exact sle_update_frame_lemma. Qed.
 Print Assumptions C15_sle_update_frame.
 
+(* given solubility: for every solver state (new object or any history of earlier calls) the call applies
+   _update_solubility over all chemicals to the present flows and returns normally whenever that does *)
+Theorem C15_sle_given_spec : forall V o st s si T P x st' s' r,
+  sle_call V o st s (mksargs (Some si) (Some T) false P (Some x)) = (st', s', r) ->
+  match update_solubility si SAll (nthq (q_s s) si + nthq (q_l s) si) (q_l s) (q_s s) x with
+  | Ok ls => r = Ok tt /\ q_l s' = fst ls /\ q_s s' = snd ls
+  | Err e => r = Err e /\ q_l s' = q_l s /\ q_s s' = q_s s
+  end /\ q_T s' = T.
+Proof. exact sle_given_spec_lemma. Qed.
+Print Assumptions C15_sle_given_spec.
+
 (* a pure solute (one chemical in equilibrium) on a fresh solver: liquid above Tm, solid at or below *)
 Theorem C15_sle_pure : forall V o act s si T P Tm st' s' r,
   let a := mksargs (Some si) (Some T) false P None in
